@@ -102,11 +102,19 @@ def run_case(rs, ctx):
             continue
         ctx.ev()
         d = twin.first_diff(ra, rb)
+        k3_active = False
+        if p == "tree":
+            data_arms = [a for a, lv in A._imp.arm_to_leaf_to_rewards.items() if len(lv)]
+            k3_active = not binarizers.identity_on_binary(binarizers.ALL[cur], data_arms)
+        if k3_active and not d:
+            # the known finding was in force but the outputs happened to agree (e.g. same arg-max): the two bandits still
+            # sampled from different Beta parameters, which consumes a different amount of the stream - re-align the twin
+            rngs.graft(A, B)
+            ctx.count("k3_active_without_visible_difference")
         if d:
             mech = None
             if p == "tree" and op.get("X") is not None:
-                data_arms = [a for a, lv in A._imp.arm_to_leaf_to_rewards.items() if len(lv)]
-                if not binarizers.identity_on_binary(binarizers.ALL[cur], data_arms):
+                if k3_active:
                     try:
                         if twin.first_diff(k3_model(a0, op["op"], op["X"]), ra) is None:
                             mech = "K3"
